@@ -551,6 +551,7 @@ struct Ev {
     kind: Kind,
     ext: Ext,
     mval: MVal,
+    agg: Option<&'static str>,
     payload: usize,
 }
 
@@ -599,7 +600,9 @@ fn emit_one(otlp: &emit_otlp::Otlp, ev: &Ev, n: u64) {
         Kind::Metric => {
             props.push(("evt_kind", emit::Value::from_any(&emit::Kind::Metric)));
             props.push(("metric_name", emit::Value::from("sim_metric")));
-            props.push(("metric_agg", emit::Value::from("count")));
+            if let Some(agg) = ev.agg {
+                props.push(("metric_agg", emit::Value::from(agg)));
+            }
             match ev.mval {
                 MVal::Number => props.push(("metric_value", emit::Value::from(42i64))),
                 MVal::Sequence => props.push(("metric_value", emit::Value::capture_sval(&seq))),
@@ -705,11 +708,17 @@ impl Engine for OtlpSim {
                 MVal::Number
             };
             let payload = if big { 100_000 + ch.choose(200_000) as usize } else { ch.choose(200) as usize };
+            let agg = if c14 {
+                *ch.pick(&[Some("count"), Some("sum"), Some("last"), Some("min"), Some("max"), None, Some("bogus")])
+            } else {
+                Some("count")
+            };
             events.push(Ev {
                 marker: format!("MK{:06}KM", i + 1),
                 kind,
                 ext,
                 mval,
+                agg,
                 payload,
             });
         }
@@ -805,12 +814,12 @@ impl Engine for OtlpSim {
                                     sc.set_nonblocking(None);
                                     emitted += 1;
                                     clog.lock().unwrap().emitted.push((i, sc.now()));
-                                    sc.log(format!("emitted {} ({:?}/{:?}/{:?}, {} payload bytes)", events[i].marker, events[i].kind, events[i].ext, events[i].mval, events[i].payload));
+                                    sc.log(format!("emitted {} ({:?}/{:?}/{:?}/agg {:?}, {} payload bytes)", events[i].marker, events[i].kind, events[i].ext, events[i].mval, events[i].agg, events[i].payload));
                                 }
                                 Step::Sleep(ms) => sc.sleep(Duration::from_millis(ms)),
                                 Step::Flush(ms) => {
                                     let t0 = sc.now();
-                                    let r = otlp.blocking_flush(Duration::from_millis(ms));
+                                    let r = simthread::with_deadline(&sc, Duration::from_millis(ms), || otlp.blocking_flush(Duration::from_millis(ms)));
                                     let t1 = sc.now();
                                     sc.log(format!("blocking_flush({ms}ms) -> {r} after {:?}", t1 - t0));
                                     clog.lock().unwrap().flushes.push((emitted, t0, t1, ms, r));
